@@ -471,6 +471,24 @@ def _parse_values():
                     cases += 1
                     if len(got) != len(want) or any(abs(g - w) > 1e-6 for g, w in zip(got, want)):
                         return cases, {"string": txt, "got": got[:12], "want": want[:12]}
+        # every magnitude of step: an end value just below / at / just above a grid point (the documented resolution is 1e-4)
+        for a in ("0", "1325376000", "-50000", "2.5"):
+            for s in ("86400", "20000", "10000", "0.001", "3", "-250", "1000000"):
+                for k in (1, 2, 5):
+                    g = Fraction(a) + k * Fraction(s)
+                    for delta in ("-1", "-0.5", "-0.01", "0", "0.01", "0.5", "1"):
+                        b = g + Fraction(delta) * (1 if Fraction(s) > 0 else -1) * (1 if abs(Fraction(s)) >= 3 else Fraction(1, 100000))
+                        btxt = ("%.6f" % float(b)).rstrip("0").rstrip(".")
+                        b = Fraction(btxt)
+                        # inside the documented resolution the end point may or may not count
+                        if 0 < (b - g) * (1 if Fraction(s) > 0 else -1) * -1 <= Fraction(1, 5000):
+                            continue
+                        txt = "%s:%s:%s" % (a, s, btxt)
+                        want = _model_range(a, s, b)
+                        got = [float(x) for x in verif.util.parse_numbers(txt)]
+                        cases += 1
+                        if len(got) != len(want) or any(abs(x - w) > 1e-6 * max(1.0, abs(w)) for x, w in zip(got, want)):
+                            return cases, {"string": txt, "got": got[:8], "want": want[:8]}
         # comma lists combine the parts in order
         for txt, want in (("3,4:6,2:5:9,6", [3, 4, 5, 6, 2, 7, 6]), ("1,2,3", [1, 2, 3]), ("5:3", []), ("0.1:0.1:0.9", [round(0.1 * k, 7) for k in range(1, 10)])):
             got = [float(x) for x in verif.util.parse_numbers(txt)]
